@@ -1,5 +1,6 @@
 import EmmetProofs.ConvCount
 import EmmetProofs.Numbering
+import EmmetProofs.ConvBudget
 /-! # C02 — `X*N` makes exactly N copies (count clause; theorem on the converter model) -/
 namespace EmmetProps
 open T
@@ -23,6 +24,27 @@ theorem C02_numbering (t : Tok) (st : CState) (size : Nat) (reverse : Bool) (bas
 
 theorem C02_countdown_last (r : Rep) (base : Nat) (h : r.value + 1 = r.count) :
     documentedNumber (some r) true base = base := T.documentedNumber_last_reverse r base h
+
+/-- the `maxRepeat` clause, for ANY skeleton forest and ANY budget (also 0 or negative): the converter returns the budgeted unrolling
+`SK.unrollB` — copies are completed in document order (a copy's descendants are made with the budget its predecessors left), every
+completed copy costs one unit, the loop of a repeater ends after the copy that brings the budget to zero (`loopB`), and the budget
+left is what the state carries on. -/
+theorem C02_budget (sk : SK) (fuel : Nat) (st : CState) (hf : sk.need ≤ fuel) (ht : st.text = .none) :
+    convertList fuel sk.toT st = .ok ((sk.unrollB st.guard).1, withGuard st (sk.unrollB st.guard).2) := T.listB sk fuel st hf ht
+
+/-- … from then on every repeater still running or met later yields just one copy: a repeater whose first copy leaves at most one
+unit makes exactly that copy -/
+theorem C02_budget_exhausted (copyF : Nat → Int → List ANode × Int) (m i : Nat) (g : Int) (h : (copyF i g).2 ≤ 1) :
+    loopB copyF (m + 1) i g = ((copyF i g).1, (copyF i g).2 - 1) := T.loopB_exhausted copyF m i g h
+
+/-- … and with enough budget all `m` copies are made and the budget drops by the number of copies (each with its `kc` descendants) -/
+theorem C02_budget_enough (copy : Nat → List ANode) (kc m i : Nat) (g : Int) (h : ((m * (kc + 1) : Nat) : Int) < g) :
+    loopB (fun j b => (copy j, b - kc)) m i g = ((List.range' i m).flatMap copy, g - ((m * (kc + 1) : Nat) : Int)) :=
+  T.loopB_enough copy kc m i g h
+
+/-- non-vacuity: `x*5+y*3` with a budget of 2: two copies of x, then one of y -/
+example : (((SK.elem [120] (some 5) .nil (.elem [121] (some 3) .nil .nil)).unrollB 2).1.length, ((SK.elem [120] (some 5) .nil (.elem [121] (some 3) .nil .nil)).unrollB 2).2) = (3, -1) := by
+  decide +kernel
 
 /-- non-vacuity: `x*3` unrolls to three copies -/
 example : (SK.elem [120] (some 3) .nil .nil).unroll.length = 3 ∧ (SK.elem [120] (some 3) .nil .nil).cost = 3 := by decide
